@@ -108,8 +108,39 @@ func (g *Gen) Run() (err error) {
 			g.assume(s)
 		}
 	}
+	if err := g.assumeAxioms(env); err != nil {
+		return err
+	}
+	if g.fc != nil && g.fc.Decreases != nil && g.fc.Decreases.E != nil {
+		// termination measure of a recursive function, evaluated at entry
+		v := g.eval(env, g.fc.Decreases.E)
+		g.decEntryFn = v.S
+	}
 	g.oblige("cover", "requires-satisfiable", "true", g.fn.Pos(), "").Cover = true
 	g.runBody()
+	return nil
+}
+
+// assumeAxioms: definitional axioms the contract lists under uses=name1,name2 (trusted; reported in evidence).
+func (g *Gen) assumeAxioms(env *Env) error {
+	if g.fc == nil || g.fc.Opts["uses"] == "" {
+		return nil
+	}
+	for _, name := range strings.Split(g.fc.Opts["uses"], ",") {
+		ax := g.E.contracts.Axioms[name]
+		if ax == nil {
+			return fmt.Errorf("%s: unknown axiom %s", g.key, name)
+		}
+		s, err := g.evalBool(env, ax.E)
+		if err != nil {
+			return fmt.Errorf("%s:%d: %v", ax.File, ax.Line, err)
+		}
+		g.assume(s)
+		if g.E.axiomsUsed == nil {
+			g.E.axiomsUsed = map[string]bool{}
+		}
+		g.E.axiomsUsed[name] = true
+	}
 	return nil
 }
 
@@ -346,6 +377,8 @@ func (g *Gen) loopEnv(li *loopInfo, st *State, phiVals map[string]Val, blk *ssa.
 			ks := g.sortOf(it.mt.Key())
 			env.vars[fmt.Sprintf("visited%d", i+1)] = Val{Sort: "(Array " + ks + " Bool)", S: g.heapGet(st, it.visited)}
 			env.vars[fmt.Sprintf("dom0_%d", i+1)] = Val{Sort: "(Array " + ks + " Bool)", S: it.dom0}
+			// rangemapN: the map the N-th range statement iterates over (often an unnamed call result)
+			env.vars[fmt.Sprintf("rangemap%d", i+1)] = Val{T: it.mt, S: it.m}
 		}
 	}
 	return env
@@ -400,8 +433,12 @@ func (g *Gen) enterLoop(h *ssa.BasicBlock, li *loopInfo) {
 	st := entry.clone()
 	g.cur = st
 	g.cellMods, g.cellPaths = nil, nil
+	g.loopTermBases = nil
 	mods, all := g.loopModified(li)
 	cellMods, cellPaths := g.cellMods, g.cellPaths
+	termBases := g.loopTermBases
+	g.loopTermBases = nil
+	var pending []pendingFrame
 	if all {
 		g.havocAll(st, "loop")
 	} else {
@@ -451,7 +488,27 @@ func (g *Gen) enterLoop(h *ssa.BasicBlock, li *loopInfo) {
 				}
 			}
 			nt := g.heapHavoc(st, n)
-			g.loopFrame(li, n, oldT, nt, entry, mods[n])
+			pending = append(pending, pendingFrame{n, oldT, nt})
+		}
+		// frames are stated once every modified variable has its new value: a written object named by a term
+		// (entries(x.f) of a callee's contract) is excluded only if that term denotes the same object before and
+		// after the havoc, i.e. does not depend on anything the loop modifies
+		for _, pf := range pending {
+			var extra []string
+			okTerms := true
+			for _, fn := range termBases[pf.heap] {
+				t1, ok1 := fn(entry)
+				t2, ok2 := fn(st)
+				if !ok1 || !ok2 || t1 != t2 {
+					okTerms = false
+					break
+				}
+				extra = append(extra, t1)
+			}
+			if !okTerms {
+				continue
+			}
+			g.loopFrame(li, pf.heap, pf.oldT, pf.newT, entry, mods[pf.heap], extra)
 		}
 	}
 	phiVals = map[string]Val{}
@@ -555,7 +612,7 @@ func (g *Gen) backEdge(from, h *ssa.BasicBlock, succIdx int) {
 			g.E.fatalf("%s:%d: %v", inv.File, inv.Line, err)
 			continue
 		}
-		g.oblige("inv+", fmt.Sprintf("loop%d:%s", li.ordinal, invLabel(inv, i)), s, from.Instrs[len(from.Instrs)-1].Pos(), inv.Text)
+		g.oblige("inv+", fmt.Sprintf("loop%d:%s", li.ordinal, invLabel(inv, i)), s, lastPos(from), inv.Text)
 	}
 	if li.lc.Decreases != nil && li.lc.Decreases.E != nil && li.decEntry != "" {
 		v := g.eval(env, li.lc.Decreases.E)
@@ -793,9 +850,19 @@ func (g *Gen) loopModified(li *loopInfo) (map[string][]ssa.Value, bool) {
 					all = true
 				}
 				bases := g.callModBases(x.Common())
+				tbases := g.callTermBases(x.Common(), inLoop)
 				for _, h := range hs {
 					if b, ok := bases[h]; ok && b != nil {
 						add(h, b)
+					} else if ts, ok := tbases[h]; ok && ts != nil {
+						// the written object is named by a term over loop-invariant values (checked in enterLoop)
+						if _, ok := mods[h]; !ok {
+							mods[h] = []ssa.Value{}
+						}
+						if g.loopTermBases == nil {
+							g.loopTermBases = map[string][]func(*State) (string, bool){}
+						}
+						g.loopTermBases[h] = append(g.loopTermBases[h], ts...)
 					} else {
 						add(h, nil)
 					}
@@ -805,8 +872,93 @@ func (g *Gen) loopModified(li *loopInfo) (map[string][]ssa.Value, bool) {
 			}
 		}
 	}
-	_ = unknown
+	// a heap variable with a write whose target is not known gets no frame at all
+	for h := range unknown {
+		mods[h] = nil
+	}
 	return mods, all
+}
+
+// callTermBases: for a call whose contract modifies `entries(e)` / `contents(e)` with e built from parameters whose
+// actual arguments are defined outside the loop, the reference of the written object as a function of the state.
+// A nil entry means some location of that heap variable could not be resolved.
+func (g *Gen) callTermBases(c *ssa.CallCommon, inLoop func(ssa.Value) bool) map[string][]func(*State) (string, bool) {
+	out := map[string][]func(*State) (string, bool){}
+	var key string
+	var actuals []ssa.Value
+	var names []string
+	if c.IsInvoke() {
+		return out
+	}
+	f, ok := c.Value.(*ssa.Function)
+	if !ok {
+		return out
+	}
+	key = funcKey(f)
+	fc := g.E.contracts.Funcs[key]
+	if fc == nil || fc.Opts["inline"] == "true" {
+		return out
+	}
+	if f.Signature.Recv() != nil {
+		names = append(names, f.Signature.Recv().Name())
+	}
+	for i := 0; i < f.Signature.Params().Len(); i++ {
+		names = append(names, f.Signature.Params().At(i).Name())
+	}
+	if p, ok := fc.Opts["params"]; ok {
+		names = strings.Split(p, ",")
+	}
+	actuals = append(actuals, c.Args...)
+	bad := map[string]bool{}
+	for _, m := range fc.Modifies {
+		for _, le := range m.Es {
+			call, isCall := le.(*ECall)
+			hs := g.locHeaps(key, le)
+			if !isCall || (call.Fun != "entries" && call.Fun != "contents") || len(call.Args) != 1 {
+				if isCall && call.Fun == "allentries" {
+					for _, h := range hs {
+						bad[h] = true
+					}
+				}
+				continue
+			}
+			le := le
+			fn := func(st *State) (res string, ok bool) {
+				defer func() {
+					if r := recover(); r != nil {
+						if _, isEval := r.(evalErr); isEval {
+							res, ok = "", false
+							return
+						}
+						panic(r)
+					}
+				}()
+				env := &Env{vars: map[string]Val{}, st: st, old: st, pkg: g.pkgOfKey(key)}
+				for i, n := range names {
+					if i < len(actuals) && !inLoop(actuals[i]) {
+						if _, isInstr := actuals[i].(ssa.Instruction); isInstr {
+							if _, done := g.vals[actuals[i]]; !done {
+								continue
+							}
+						}
+						env.vars[n] = g.val(actuals[i])
+					}
+				}
+				_, idx, whole, err := g.locOf(env, le)
+				if err != nil || whole || idx == "" {
+					return "", false
+				}
+				return idx, true
+			}
+			for _, h := range hs {
+				out[h] = append(out[h], fn)
+			}
+		}
+	}
+	for h := range bad {
+		out[h] = nil
+	}
+	return out
 }
 
 func (g *Gen) cellName(x *ssa.Alloc) string {
@@ -1022,6 +1174,11 @@ func (g *Gen) locHeaps(key string, le Expr) []string {
 			}
 			hs = append(hs, g.arrHeap(types.Typ[types.Uint8]))
 			return hs
+		case "allentries":
+			if mt, err := g.mapTypeOf(x); err == nil {
+				dom, val := g.mapHeaps(mt)
+				return []string{dom, val}
+			}
 		case "entries":
 			if len(x.Args) == 1 {
 				if t := g.staticType(key, x.Args[0]); t != nil {
@@ -1086,7 +1243,9 @@ func (g *Gen) locHeaps(key string, le Expr) []string {
 }
 
 // loopFrame: objects that existed before the loop and are not written in it keep their fields.
-func (g *Gen) loopFrame(li *loopInfo, heap, oldT, newT string, entry *State, bases []ssa.Value) {
+type pendingFrame struct{ heap, oldT, newT string }
+
+func (g *Gen) loopFrame(li *loopInfo, heap, oldT, newT string, entry *State, bases []ssa.Value, extra []string) {
 	if bases == nil {
 		return // some write has an unknown base: no frame knowledge
 	}
@@ -1108,6 +1267,9 @@ func (g *Gen) loopFrame(li *loopInfo, heap, oldT, newT string, entry *State, bas
 		}
 		v = g.ghostOwner(v, owner)
 		exc = append(exc, fmt.Sprintf("(not (= r %s))", v.S))
+	}
+	for _, t := range extra {
+		exc = append(exc, fmt.Sprintf("(not (= r %s))", t))
 	}
 	bound := "true"
 	if owner == "Int" {
@@ -1339,6 +1501,13 @@ func (g *Gen) locOf(env *Env, le Expr) (heaps []string, idx string, whole bool, 
 			v := g.eval(env, x.Args[0])
 			sl := v.T.Underlying().(*types.Slice)
 			return []string{g.arrHeap(sl.Elem())}, "(sl.ref " + v.S + ")", false, nil
+		case "allentries":
+			mt, err := g.mapTypeOf(x)
+			if err != nil {
+				return nil, "", false, err
+			}
+			dom, val := g.mapHeaps(mt)
+			return []string{dom, val}, "", true, nil
 		case "entries":
 			v := g.eval(env, x.Args[0])
 			dom, val := g.mapHeaps(v.T.Underlying().(*types.Map))
@@ -1473,4 +1642,16 @@ func (g *Gen) runInline(fn *ssa.Function, binds []Val, args []Val, rt types.Type
 		return out[0]
 	}
 	return Val{T: rt, Tuple: out}
+}
+
+// lastPos: the position of the last instruction of the block (or of its dominators) that has one.
+func lastPos(b *ssa.BasicBlock) token.Pos {
+	for ; b != nil; b = b.Idom() {
+		for i := len(b.Instrs) - 1; i >= 0; i-- {
+			if p := b.Instrs[i].Pos(); p.IsValid() {
+				return p
+			}
+		}
+	}
+	return token.NoPos
 }
